@@ -48,7 +48,7 @@ def _case(rng, farmer=None, sow_constants=False):
     n = sweeps.n_settings(sw)
     b = crops.gen_batching(rng, n)
     c = {'farmer': farmer, 'to_df': to_df, 'sweep': sw, 'desc': desc, 'batching': b, 'B': crops.num_batches_for(n, b),
-         'shuffle': rng.choice([0, 0, 3, 17]), 'reload': rng.sample(['after_sow', 'after_grow'], rng.randint(0, 2)),
+         'shuffle': rng.choice([0, 0, 3, 17]), 'sow_call': rng.choice(['value', 'value', 'none', 'omit']), 'reload': rng.sample(['after_sow', 'after_grow'], rng.randint(0, 2)),
          'cases': cases, 'seed': rng.randrange(10 ** 6)}
     if farmer == 'harvester':
         c['engine'] = rng.choice(['joblib', 'joblib', 'h5netcdf'])
@@ -150,7 +150,17 @@ def run_real(c, ctx):
                 crop.sow_cases(sw['case_args'], cases_t, verbosity=0, **kw)
             else:
                 mkw = {'cases': sweeps.py_cases(sw, 'dict')} if sw['rows'] is not None else {}
-                crop.sow_combos(combos, shuffle=c['shuffle'] or False, verbosity=0, **kw, **mkw)
+                # the shuffle setting reaches the crop through the call, or stays on the crop (shuffle=None), or the
+                # call leaves the argument at its default
+                how = c.get('sow_call', 'value')
+                if how == 'none':
+                    crop.shuffle = c['shuffle'] or False
+                    skw = {'shuffle': None}
+                elif how == 'omit' and not c['shuffle']:
+                    skw = {}
+                else:
+                    skw = {'shuffle': c['shuffle'] or False}
+                crop.sow_combos(combos, verbosity=0, **kw, **mkw, **skw)
             if 'after_sow' in c['reload']:
                 crop = xyz.Crop(name='t', parent_dir=d)
             ids = list(range(1, c['B'] + 1)); random.Random(c['seed']).shuffle(ids)
@@ -226,10 +236,13 @@ def run_real(c, ctx):
 
 def model_request(c, obs):
     sw = c['sweep']
-    new = {'op': 'new', 'shuffle': c['shuffle'] if c['cases'] else 0}
+    how = c.get('sow_call', 'value')
+    new = {'op': 'new', 'shuffle': c['shuffle'] if (c['cases'] or how == 'none') else 0}
     new.update(c['batching'])
     sow = {'op': 'sow', 'cases': c['cases']}
-    if not c['cases']: sow['shuffle'] = c['shuffle']
+    if not c['cases']:
+        if how == 'none': sow['shuffle_none'] = True
+        else: sow['shuffle'] = c['shuffle']
     ops = [new, sow]
     if 'after_sow' in c['reload']: ops.append({'op': 'reload'})
     ids = list(range(1, c['B'] + 1)); random.Random(c['seed']).shuffle(ids)
